@@ -400,3 +400,9 @@ package linker
 // of EVERY chunk reachable through cross-chunk imports, static or dynamic, at any depth (the import paths of all of
 // them are substituted into the bytes of the chunks on the way). Only "already visited" may cut the walk.
 //@ guarded hash-walk-follows-every-cross-chunk-import C18: func=(*linkerContext).appendIsolatedHashesForImportedChunks ; in=linker ; site=call appendIsolatedHashesForImportedChunks ; control=1 ; allow-only=true:phi:rangeindex+1<call len(*crossChunkImports) && false:visited[chunkIndex]==visitedKey
+
+// C02 (a lazily exported JSON object keeps its shape): when a property value of the default-export object is replaced
+// by a reference to its own top-level variable, ONLY the value changes; the key, the computed flag the JSON parser sets
+// on "__proto__" (an own property, not the prototype setter) and every other attribute stay those of the cloned
+// property. So the substitution writes the ValueOrNil field of the clone's element, not a rebuilt element.
+//@ flow lazy-export-substitution-writes-only-the-value C02: func=(*linkerContext).generateCodeForFileInChunkJS ; in=linker ; site=store Property.ValueOrNil ; targetpath=objectClone.Properties[*].ValueOrNil
